@@ -491,10 +491,12 @@ class SimpleHeatPumpCycle:
             T_sat_liquid = self._state.T()
         
             # Assemble the 4-point polyline: [H, T]
+            # (a saturation point is a breakpoint only when it lies between the end states: a wet or liquid
+            #  compressor discharge has none on the vapour side, an outlet clamped above saturated liquid none at all)
             condenser_profile = np.array([
                 [H[1], T[1]],            # superheated
                 [h_sat_vapor, T_sat_vapor] if h_sat_vapor < H[1] else [H[1], T[1]],
-                [h_sat_liquid, T_sat_liquid],
+                [h_sat_liquid, T_sat_liquid] if H[2] <= h_sat_liquid <= H[1] else ([H[1], T[1]] if h_sat_liquid > H[1] else [H[2], T[2]]),
                 [H[2], T[2]],            # subcooled outlet
             ], dtype=float)
 
@@ -548,9 +550,11 @@ class SimpleHeatPumpCycle:
         T_sat_vapor = self._state.T()
     
         # Assemble the 3-point polyline: [H, T]
+        # (the throttle outlet can already be superheated vapour -- near-critical condensing of a dry fluid --
+        #  in which case the saturated-vapour point does not lie between the end states)
         evaporator_profile = np.array([
             [H[3], T[3]],            # inlet
-            [h_sat_vapor, T_sat_vapor],
+            [h_sat_vapor, T_sat_vapor] if h_sat_vapor > H[3] else [H[3], T[3]],
             [H[0], T[0]],            # superheated outlet
         ], dtype=float)
     
